@@ -410,6 +410,12 @@ public:
                                       :( whence == SEEK_CUR ? std::ios::cur
                                                             : std::ios::end )
                  );
+
+        // a stream that cannot seek ( or cannot seek there ) is left in a failed state in which every
+        // later read delivers nothing: report it like file_stream_device does
+        io_error_if( _in.fail()
+                   , "istream_device: file seek error"
+                   );
     }
 
     long int tell()
